@@ -3,6 +3,8 @@ import WhatIs.Model.ReadAll
 import WhatIs.Model.Asn1Raw
 import WhatIs.Model.Base64
 import WhatIs.Model.RpmGuard
+import WhatIs.Model.JksGuard
+import WhatIs.Lemmas.Jks
 import WhatIs.Lemmas.Robust
 /-
   Props/C08.lean — PROPERTY THEOREMS for C08 (resource use is bounded by input size).
@@ -85,6 +87,26 @@ theorem rpm_refused (data : Bytes) (h : RpmGuard.plausible data = true) :
 
 /-- WITNESS (finding D44): entries that each stay within the store but overlap are refused by the running sum -/
 theorem rpm_overlap_witness : RpmGuard.sumsWithin 8 0 [8, 8] = false ∧ RpmGuard.sumsWithin 8 0 [4, 4] = true := by decide
+
+/-- the regenerated fact: a field cut off by the end of the data ends the keystore walk -/
+theorem jks_stops_on_truncation : Gen.jksStopsOnTruncation = true := by decide
+
+/-- JKS pre-check: a length field the walk accepts lies within the data (so what jks-go allocates for it is present) -/
+theorem jks_field_within (data : Bytes) (off k off' : Nat) (ho : off ≤ data.length)
+    (h : JksGuard.skipLen data off k = .moved off') :
+    off' = off + k + JksGuard.be data off k ∧ off' ≤ data.length := Lemmas.Jks.skipLen_moved data off k off' ho h
+
+/-- JKS pre-check: the walk itself is cheap — its loop iterations (entry loop and certificate-chain loop, whose bound
+    is a 32-bit count taken from the file) are at most the number of bytes, for EVERY input -/
+theorem jks_walk_steps_bounded (data : Bytes) : (JksGuard.walkB Gen.jksStopsOnTruncation data).steps ≤ data.length := by
+  rw [jks_stops_on_truncation]; exact Lemmas.Jks.walk_steps data
+
+/-- WITNESS (finding D46): without the stop-on-truncation rule a 36-byte keystore (one private-key entry, chain length
+    2^32-1, one byte left) makes the chain loop count to 2^32-1 without moving -/
+theorem jks_stuck_witness :
+    let d : Bytes := [0xFE,0xED,0xFE,0xED, 0,0,0,2, 0,0,0,1, 0,0,0,1, 0,1,97, 0,0,0,0,0,0,0,0, 0,0,0,0, 255,255,255,255, 0]
+    (JksGuard.walkB false d).steps ≥ 4294967295 ∧ (JksGuard.walkB true d).steps ≤ 3 ∧
+    (JksGuard.walkB false d).verdict = true ∧ (JksGuard.walkB true d).verdict = true := by decide
 
 -- non-vacuity ---------------------------------------------------------------------------------------
 /-- an endless source of zero bytes read in 3-byte pieces under a small allowance: the loop stops at the allowance -/
